@@ -267,7 +267,7 @@ def check_c15(v: Verdict, t1_summary, n_unions):
 def check_c02_passthrough(v: Verdict, n_unions):
     """C02 over unions handled by the union-passthrough strategy (every preconfigured converter uses it), oracle only: a value
     that comes back from structure(v, U) unchanged must be a value of U -- an instance of one of U's classes (NewTypes by
-    their base) or equal to one of U's literals and of that literal's class."""
+    their base) or equal to one of U's literals."""
     rng = random.Random(v.seed * 7919 + 2015)
     hist = {"unions": 0, "probes": 0, "passed_through": 0}
     while hist["unions"] < n_unions:
@@ -294,7 +294,9 @@ def check_c02_passthrough(v: Verdict, n_unions):
             ok = False
             for t in args:
                 if is_literal(t):
-                    ok = ok or any(lit.__class__ is val.__class__ and lit == val for lit in t.__args__)
+                    # membership as C02 reads it for Literal positions: Python `in` (equality); the exact-class rule of the
+                    # passthrough strategy itself is C15's business, and plain Optional[Literal[..]] goes to the default hooks
+                    ok = ok or any(lit == val for lit in t.__args__)
                 else:
                     b = get_newtype_base(t) or t
                     ok = ok or (isinstance(b, type) and isinstance(val, b))
